@@ -37,7 +37,7 @@ pub(crate) fn l1_debt_pay() {
     model::log_reset();
     unsafe { crate::verif::set_hooks(None, Some(model::record_after)) };
 
-    let r = d.pay::<TP>(p as *const model::Obj);
+    let r = d.pay::<TP>(model::ptr(model::index_of(p).unwrap()));
 
     unsafe { crate::verif::set_hooks(None, None) };
     vassert!(r == (content == p), "pay_true_iff_slot_held_the_pointer");
@@ -88,6 +88,8 @@ fn any_content2() -> usize {
 #[cfg_attr(kani, kani::proof)]
 #[cfg_attr(kani, kani::stub(crate::debt::Node::traverse, crate::debt::verif_h::list_h::traverse_unrolled2))]
 #[cfg_attr(kani, kani::stub(crate::debt::LocalNode::help, crate::debt::verif_h::list_h::help_contract))]
+#[cfg_attr(kani, kani::stub(crate::debt::LocalNode::with, crate::debt::verif_h::list_h::with_static))]
+#[cfg_attr(kani, kani::stub(crate::debt::Node::get, crate::debt::verif_h::list_h::node_get_unexpected))]
 #[cfg_attr(kani, kani::unwind(12))]
 pub(crate) fn l1_pay_all_foreign() {
     pay_all_contract(true);
@@ -97,6 +99,8 @@ pub(crate) fn l1_pay_all_foreign() {
 #[cfg_attr(kani, kani::proof)]
 #[cfg_attr(kani, kani::stub(crate::debt::Node::traverse, crate::debt::verif_h::list_h::traverse_unrolled2))]
 #[cfg_attr(kani, kani::stub(crate::debt::LocalNode::help, crate::debt::verif_h::list_h::help_contract))]
+#[cfg_attr(kani, kani::stub(crate::debt::LocalNode::with, crate::debt::verif_h::list_h::with_static))]
+#[cfg_attr(kani, kani::stub(crate::debt::Node::get, crate::debt::verif_h::list_h::node_get_unexpected))]
 #[cfg_attr(kani, kani::unwind(12))]
 pub(crate) fn l1_pay_all_own() {
     pay_all_contract(false);
@@ -104,7 +108,8 @@ pub(crate) fn l1_pay_all_own() {
 }
 
 fn pay_all_contract(foreign_symbolic: bool) {
-    let foreign = list_h::node_get(); // some other thread's node (stays USED)
+    let foreign = list_h::fresh_node(); // some other thread's node (stays USED)
+    list_h::setup_thread_node();
     let ptr_obj = 0usize;
     let ptr = model::addr(ptr_obj);
     let storage_addr = 0x7000usize;
@@ -151,7 +156,7 @@ fn pay_all_contract(foreign_symbolic: bool) {
     model::monitor_lw1(ptr);
     unsafe { crate::verif::set_hooks(None, Some(model::record_after)) };
 
-    Debt::pay_all::<TP, _>(ptr as *const model::Obj, storage_addr, replacement);
+    Debt::pay_all::<TP, _>(model::ptr(0), storage_addr, replacement);
 
     unsafe { crate::verif::set_hooks(None, None) };
     let post_f = list_h::view(foreign);
@@ -223,4 +228,77 @@ where
         }
         i += 1;
     }
+}
+
+// C09 – solo progress of the writer's debt walk. Pre-state: ANY state of a foreign node allowed by
+// the shared-state invariant (its owner suspended anywhere in the reader protocol: control IDLE /
+// a published generation on my storage or another / an installed replacement; any slot contents;
+// in_use and active_writers arbitrary), all other threads frozen. The REAL `help` (with its retry
+// loop) and the real per-node body run; obligations: every loop exits within the unwinding bound
+// (unwinding assertions on), the number of own atomic steps is bounded by a constant, and the
+// foreign node is left in a state from which its owner can continue.
+pub(crate) const K_PAY_ALL_2_NODES: usize = 64;
+
+// @harness name=solo_pay_all props=C09,C12 tier=quick flavour=nostd timeout=2400 fn=Debt::pay_all+LocalNode::help+helping::Slots::help+Node::reserve_writer
+#[cfg_attr(kani, kani::proof)]
+#[cfg_attr(kani, kani::stub(crate::debt::Node::traverse, crate::debt::verif_h::list_h::traverse_unrolled2))]
+#[cfg_attr(kani, kani::stub(crate::debt::LocalNode::with, crate::debt::verif_h::list_h::with_static))]
+#[cfg_attr(kani, kani::stub(crate::debt::Node::get, crate::debt::verif_h::list_h::node_get_unexpected))]
+#[cfg_attr(kani, kani::unwind(12))]
+pub(crate) fn solo_pay_all() {
+    // the writer's own node first (so that it cannot claim the foreign node when that one is made to
+    // look unused below), then the foreign one
+    let mine = list_h::setup_thread_node();
+    let foreign = list_h::fresh_node();
+    let ptr = model::addr(0);
+    let storage_addr = 0x7000usize;
+    model::create(0, 4);
+    model::create(1, 4);
+    model::create(2, 4);
+    let mut i = 0;
+    while i < 9 {
+        fast_h::poke(list_h::any_slot(foreign, i), any_content2());
+        i += 1;
+    }
+    let fh = list_h::node_helping(foreign);
+    let ckind = nd::below(3);
+    let g = helping_h::any_generation();
+    let same = nd::any_bool();
+    match ckind {
+        0 => helping_h::poke_control(fh, helping_h::C_IDLE),
+        1 => helping_h::poke_control(fh, g | helping_h::C_GEN_TAG),
+        _ => helping_h::poke_control(fh, helping_h::own_handover_addr(fh) | helping_h::C_REPL_TAG),
+    }
+    helping_h::poke_active_addr(fh, if same { storage_addr } else { 0x7100 });
+    list_h::poke_in_use(foreign, match nd::below(3) { 0 => list_h::UNUSED, 1 => list_h::USED, _ => list_h::COOLDOWN });
+    let fw = nd::below(3) as usize;
+    list_h::poke_active_writers(foreign, fw);
+    unsafe {
+        REPL_CALLS = 0;
+        REPL_OBJ = 2;
+    }
+    let pre_f = list_h::view(foreign);
+    model::log_reset();
+    unsafe { crate::verif::set_hooks(None, Some(model::record_after)) };
+
+    Debt::pay_all::<TP, _>(model::ptr(0), storage_addr, replacement);
+
+    unsafe { crate::verif::set_hooks(None, None) };
+    let post_f = list_h::view(foreign);
+    vassert!(model::steps() <= K_PAY_ALL_2_NODES, "writer_debt_walk_finishes_in_bounded_own_steps");
+    vassert!(unsafe { REPL_CALLS } <= 1, "writer_helps_at_most_once_per_node_when_alone");
+    vassert!(post_f.active_writers == fw && list_h::view(mine).active_writers == 0, "writer_leaves_no_reservation_behind");
+    vassert!(post_f.in_use == pre_f.in_use, "writer_never_changes_node_ownership");
+    // a parked reader can continue: control is still well formed
+    let c = post_f.helping.control;
+    vassert!(c == helping_h::C_IDLE || c & helping_h::C_TAG_MASK == helping_h::C_GEN_TAG || c & helping_h::C_TAG_MASK == helping_h::C_REPL_TAG, "control_stays_well_tagged");
+    if ckind == 1 && !same {
+        vassert!(c == pre_f.helping.control && unsafe { REPL_CALLS } == 0, "writer_does_not_touch_a_reader_of_another_container");
+    }
+    let mut k = 0;
+    while k < 9 {
+        vassert!(post_f.slots[k] != ptr, "no_debt_on_the_removed_value_survives_the_walk");
+        k += 1;
+    }
+    vcover!("solo_pay_all_end");
 }
